@@ -78,6 +78,13 @@ where
     pub z: Option<Read<'a, A25>>,
 }
 
+/// A generic derive whose members are a *compound* of its type parameters.
+#[derive(shred::SystemData)]
+pub struct GT<'a, X: SystemData<'a>, Y: SystemData<'a>> {
+    pub both: (X, Y),
+    pub z: Option<Read<'a, A25>>,
+}
+
 pub fn rid(i: usize) -> ResourceId {
     with_a!(i, T => ResourceId::new::<T>())
 }
@@ -460,7 +467,22 @@ macro_rules! check {
     ($rt:expr, $model:expr, $ty:ty) => {
         $rt.run_case(
             &$model,
-            &|| (<$ty as SystemData>::reads(), <$ty as SystemData>::writes()),
+            &|| {
+                // as a system would be asked (through the accessor of a static system data type)
+                // and directly: both ways must say the same
+                let (r, w) = (<$ty as SystemData>::reads(), <$ty as SystemData>::writes());
+                let acc = <shred::StaticAccessor<$ty> as shred::Accessor>::try_new().expect("static accessor");
+                let (ra, wa) = (shred::Accessor::reads(&acc), shred::Accessor::writes(&acc));
+                if ra != r || wa != w {
+                    // make the disagreement visible to the comparison with the model
+                    let mut r2 = r.clone();
+                    r2.extend(ra);
+                    let mut w2 = w.clone();
+                    w2.extend(wa);
+                    return (r2, w2);
+                }
+                (r, w)
+            },
             &|w: &World, alive: &mut dyn FnMut(&World)| {
                 let v = <$ty as SystemData>::fetch(w);
                 alive(w);
